@@ -9,6 +9,7 @@
 From Coq Require Import List String ZArith QArith Bool Sorting.Sorted.
 From Piko Require Import Base.Maps FD.FD FDP.Window FDP.Phi FDP.Detector.
 From Piko Require Import Gossip.Types Gossip.Apply GossipP.ApplyP Compose.LiveFD.
+From Piko Require Import generated.Constants GossipP.ConstantsP.
 Import ListNotations.
 Open Scope list_scope.
 Open Scope nat_scope.
@@ -173,6 +174,12 @@ Theorem C12_silent_eventually_unreachable :
 Proof. exact silent_eventually_unreachable. Qed.
 
 
+(* the tie of the threshold to the source: coq/generated/Constants.v is rewritten at every run from the constants of the
+   current pkg/gossip as compiled; the threshold the scheduler passes to UpdateLiveness (gossip.go suspicionThreshold) is the
+   threshold of the theorems above *)
+Theorem C12_threshold_is_the_sources : GoConst.suspicionThreshold = FD.suspicionThreshold.
+Proof. exact src_suspicion_threshold. Qed.
+
 Print Assumptions C12_window.
 Print Assumptions C12_reachable.
 Print Assumptions C12_no_overflow.
@@ -187,3 +194,4 @@ Print Assumptions C12_window_only.
 Print Assumptions C12_detector_tracks.
 Print Assumptions C12_never_heard.
 Print Assumptions C12_silent_eventually_unreachable.
+Print Assumptions C12_threshold_is_the_sources.
